@@ -232,7 +232,7 @@ def obs_equal(a, b):
 class Runner:
     """explores all families of one property; everything a worker needs is set before the pool forks"""
 
-    def __init__(self, prop_id, families, pkgs, known, tier, seed, budget_s, workers=16, slice_paths=150,
+    def __init__(self, prop_id, families, pkgs, known, tier, seed, budget_s, workers=16, slice_paths=400,
                  no_concordance=False):
         self.prop, self.families, self.pkgs, self.known = prop_id, families, pkgs, known
         self.tier, self.seed, self.budget_s, self.workers, self.slice_paths = tier, seed, budget_s, workers, slice_paths
@@ -296,7 +296,7 @@ class Runner:
                     res["samples"].append(dict(inputs=enc_val(wit), observed=enc_val(sobs)[:6]))
 
         try:
-            res["left"] = core.explore(one_path, prefixes=prefixes, max_paths=max_paths, on_path=on_path)
+            res["left"] = core.explore(one_path, prefixes=prefixes, max_paths=max_paths, on_path=on_path, max_seconds=6)
         except Inconclusive as e:
             res["error"] = "INCONCLUSIVE " + type(e).__name__ + ": " + str(e) + " @ " + _where(e)
         except HarnessError as e:
@@ -337,7 +337,8 @@ class Runner:
             def submit():
                 while queue and len(pending) < self.workers * 2:
                     j, pre = queue.pop(0)
-                    fut = ex.submit(_run_slice, j, pre, self.slice_paths)
+                    first = pre == [[]]
+                    fut = ex.submit(_run_slice, j, pre, 25 if first else self.slice_paths)
                     pending[fut] = j
             submit()
             while pending:
@@ -377,7 +378,8 @@ class Runner:
                         left = []
                     if left:
                         # split the remaining subtrees over several slices
-                        k = max(1, min(len(left), 4))
+                        # fan out harder while workers would otherwise idle
+                        k = max(1, min(len(left), 4 if len(queue) + len(pending) > self.workers * 2 else self.workers))
                         for i in range(k):
                             part = left[i::k]
                             if part:
